@@ -129,9 +129,14 @@ class RateLimiter(BaseRateLimiter):
         max_interval = 0
         if not self.rules.get("ip"):
             return
-        for rules in self.rules["ip"].values():
-            rule_res = max(rules)[0]
-            max_interval = max(rule_res, max_interval)
+        # per-address histories are shared by the ip rules and by the rules of
+        # specific addresses: keep them as long as the longest of those needs
+        for scope, scope_rules in self.rules.items():
+            if scope == "global":
+                continue
+            for rules in scope_rules.values():
+                rule_res = max(rules)[0]
+                max_interval = max(rule_res, max_interval)
 
         now = self._timestamp()
         to_del = []
